@@ -605,7 +605,9 @@ Viol(o, e) ==
       [] e.e = "quiesce_end"  -> QuiesceClauses(o, e) \cup OverdueClauses(o, e)
       [] e.e = "drain"        -> DrainClauses(o, e) \cup OverdueClauses(o, e)
       [] e.e = "end"          -> DrainClauses([o EXCEPT !.terminal = TRUE, !.termOrd = o.nops], e)
-      [] e.e \in {"exception", "hang", "terminate"} -> {"C19_e_ExceptionOrHang"}
+      \* an exception escaping the client, or a client that keeps itself busy without ever coming to rest: after hostile
+      \* bytes that is C19; with a conformant broker it breaks whatever property is being checked (like a crash)
+      [] e.e \in {"exception", "hang", "terminate"} -> IF o.hostile THEN {"C19_e_ExceptionOrHang"} ELSE {"C19_e_ExceptionOrHang", "CXX_x_ClientNeverComesToRest"}
       [] OTHER                -> {}
 
 =============================================================================
